@@ -6,8 +6,8 @@
 //! encodings are documented in coq/Model/D_C06.v.
 use crate::util::*;
 use arrow_array::builder::{Int32Builder, ListBuilder};
-use arrow_array::{Array, ArrayRef, BooleanArray, Int32Array, Int64Array, ListArray, RecordBatch, StringArray};
-use arrow_buffer::BooleanBuffer;
+use arrow_array::{Array, ArrayRef, BooleanArray, Decimal128Array, Int32Array, Int64Array, ListArray, RecordBatch, StringArray};
+use arrow_buffer::{BooleanBuffer, NullBuffer};
 use arrow_schema::{ArrowError, DataType, Field, Schema};
 use bytes::Bytes;
 use num_bigint::BigInt;
@@ -18,7 +18,9 @@ use parquet::arrow::arrow_reader::{
 use parquet::arrow::{ArrowWriter, ProjectionMask};
 use parquet::file::metadata::PageIndexPolicy;
 use parquet::file::page_index::offset_index::PageLocation;
+use parquet::basic::Encoding;
 use parquet::file::properties::{EnabledStatistics, WriterProperties, WriterVersion};
+use parquet::schema::types::ColumnPath;
 use std::collections::HashMap;
 use std::sync::{Arc, Mutex, OnceLock};
 
@@ -94,6 +96,8 @@ fn ll_of(id: i64) -> Option<Vec<Option<Vec<Option<i32>>>>> {
     }).collect())
 }
 
+fn dec_of(id: i64) -> Option<i128> { if id % 9 == 4 { None } else { Some(id as i128 * 1_000_003 - 7) } }
+
 fn file_schema() -> Arc<Schema> {
     Arc::new(Schema::new(vec![
         Field::new("id", DataType::Int64, false),
@@ -102,6 +106,7 @@ fn file_schema() -> Arc<Schema> {
         Field::new("lst", DataType::List(Arc::new(Field::new("item", DataType::Int32, true))), true),
         Field::new("ll", DataType::List(Arc::new(Field::new("item",
             DataType::List(Arc::new(Field::new("item", DataType::Int32, true))), true))), true),
+        Field::new("dec", DataType::Decimal128(30, 2), true),
     ]))
 }
 
@@ -134,15 +139,27 @@ fn make_batch(schema: &Arc<Schema>, nullmod: i64, start: i64, n: i64) -> RecordB
         }
     }
     let ll: ArrayRef = Arc::new(llb.finish());
-    RecordBatch::try_new(schema.clone(), vec![id, val, s, lst, ll]).expect("batch")
+    let dec: ArrayRef = Arc::new(Decimal128Array::from(ids.iter().map(|i| dec_of(*i)).collect::<Vec<_>>())
+        .with_precision_and_scale(30, 2).expect("decimal"));
+    RecordBatch::try_new(schema.clone(), vec![id, val, s, lst, ll, dec]).expect("batch")
 }
 
 /// file parameters (group 0): nullmod, page row limit, write batch size, writer version (1|2),
-/// dictionary on/off, offset index disabled, rows per written RecordBatch, statistics level
+/// dictionary on/off, offset index disabled, rows per written RecordBatch, statistics level,
+/// value encoding (0 default; 1 dec BYTE_STREAM_SPLIT; 2 dec PLAIN without dictionary;
+/// 3 id, val and dec BYTE_STREAM_SPLIT; 4 dec DELTA_BYTE_ARRAY)
 fn write_file(p: &[i64], rg_counts: &[i64]) -> Bytes {
     let (nullmod, page_rows, wbatch, version, dict, no_oidx, chunk, stats) =
         (p[0], p[1] as usize, p[2] as usize, p[3], p[4] != 0, p[5] != 0, p[6].max(1), p[7]);
-    let props = WriterProperties::builder()
+    let enc = p.get(8).copied().unwrap_or(0);
+    let mut pb = WriterProperties::builder();
+    let cols: &[&str] = match enc { 1 | 2 | 4 => &["dec"], 3 => &["id", "val", "dec"], _ => &[] };
+    for c in cols {
+        let path = ColumnPath::from(*c);
+        pb = pb.set_column_dictionary_enabled(path.clone(), false).set_column_encoding(path, match enc {
+            2 => Encoding::PLAIN, 4 => Encoding::DELTA_BYTE_ARRAY, _ => Encoding::BYTE_STREAM_SPLIT });
+    }
+    let props = pb
         .set_writer_version(if version == 2 { WriterVersion::PARQUET_2_0 } else { WriterVersion::PARQUET_1_0 })
         .set_data_page_row_count_limit(page_rows.max(1))
         .set_write_batch_size(wbatch.max(1))
@@ -184,7 +201,7 @@ fn cached_file(p: &Group, rgs: &Group) -> Bytes {
 fn make_predicate(desc: &parquet::schema::types::SchemaDescriptor, nullmod: i64, q: &[i64]) -> Box<dyn ArrowPredicate> {
     let (kind, p1, p2, extra) = (q[0], q[1], q[2], q[3]);
     let need = if kind == 0 || kind == 3 { 0usize } else { 1usize };
-    let mut leaves: Vec<usize> = (0..5).filter(|i| *i == need || (extra >> i) & 1 == 1).collect();
+    let mut leaves: Vec<usize> = (0..6).filter(|i| *i == need || (extra >> i) & 1 == 1).collect();
     leaves.sort();
     let proj = ProjectionMask::leaves(desc, leaves);
     let _ = nullmod;
@@ -196,7 +213,15 @@ fn make_predicate(desc: &parquet::schema::types::SchemaDescriptor, nullmod: i64,
             }
             _ => {
                 let v = batch.column_by_name("val").expect("val").as_any().downcast_ref::<Int32Array>().expect("i32").clone();
-                if kind == 1 { v.iter().map(|x| x.map(|x| (x as i64) < p1)).collect() }
+                if kind == 1 {
+                    // three-valued result as a comparison kernel produces it: NULL where val is NULL, and the
+                    // value bit under a NULL slot is whatever the kernel computed on the padding - here set
+                    // (extra bit 6 clear) or the comparison of the padding value 0 (extra bit 6 set)
+                    let under_null = if (extra >> 6) & 1 == 1 { 0 < p1 } else { true };
+                    let values: BooleanBuffer = v.iter().map(|x| match x { Some(x) => (x as i64) < p1, None => under_null }).collect();
+                    let nulls: BooleanBuffer = v.iter().map(|x| x.is_some()).collect();
+                    BooleanArray::new(values, Some(NullBuffer::new(nulls)))
+                }
                 else { v.iter().map(|x| Some(x.is_none())).collect() }
             }
         })
@@ -213,8 +238,8 @@ fn run_read(a: &Args) -> Args {
     let mut b = match ParquetRecordBatchReaderBuilder::try_new_with_options(file, opts) { Ok(b) => b, Err(_) => return err(E_INVALID) };
     let desc = b.metadata().file_metadata().schema_descr_ptr();
     let proj_bits = to_i64s(&a[8]);
-    let leaves: Vec<usize> = (0..5).filter(|i| proj_bits[*i] != 0).collect();
-    if leaves.len() < 5 || hp[4] >= 0 {
+    let leaves: Vec<usize> = (0..6).filter(|i| proj_bits[*i] != 0).collect();
+    if leaves.len() < 6 || hp[4] >= 0 {
         b = b.with_projection(if hp[4] == 1 { ProjectionMask::roots(&desc, leaves.clone()) } else { ProjectionMask::leaves(&desc, leaves.clone()) });
     }
     if hp[3] != 0 { b = b.with_row_groups(to_i64s(&a[2]).iter().map(|x| *x as usize).collect()); }
@@ -234,6 +259,7 @@ fn run_read(a: &Args) -> Args {
     let reader = match b.build() { Ok(r) => r, Err(_) => return err(E_INVALID) };
     let (mut rows, mut big) = (0usize, 0usize);
     let (mut ids, mut vals, mut strs, mut lsts, mut lls): (Group, Group, Group, Group, Group) = (vec![], vec![], vec![], vec![], vec![]);
+    let mut decs: Group = vec![];
     let push_list = |out: &mut Group, e: ArrayRef| {
         let e = e.as_any().downcast_ref::<Int32Array>().expect("item type").clone();
         out.push(BigInt::from(e.len()));
@@ -267,6 +293,10 @@ fn run_read(a: &Args) -> Args {
                 push_list(&mut lsts, c.value(i));
             }
         }
+        if let Some(c) = batch.column_by_name("dec") {
+            let c = c.as_any().downcast_ref::<Decimal128Array>().expect("dec type");
+            decs.extend(c.iter().map(|x| BigInt::from(x.unwrap_or(NULL_I as i128))));
+        }
         if let Some(c) = batch.column_by_name("ll") {
             let c = c.as_any().downcast_ref::<ListArray>().expect("ll type");
             for i in 0..c.len() {
@@ -280,7 +310,7 @@ fn run_read(a: &Args) -> Args {
             }
         }
     }
-    vec![g(rows), g(big), ids, vals, strs, lsts, lls]
+    vec![g(rows), g(big), ids, vals, strs, lsts, lls, decs]
 }
 
 // ------------------------------------------------------------------------------------------------
@@ -616,6 +646,7 @@ fn gen_reads(files: usize, reads: usize, r: &mut Rng, emit: &mut dyn FnMut(Case)
         let fparams: Vec<i64> = vec![
             *r.pick(&[0i64, 2, 3, 7, 10]), page_rows as i64, wbatch as i64, 1 + r.below(2) as i64, r.below(2) as i64,
             (fi % 4 == 3) as i64, *r.pick(&[1i64, 7, 64, 1000, 5000]), r.below(3) as i64,
+            *r.pick(&[0i64, 1, 1, 1, 2, 3, 3, 4]),
         ];
         let no_oidx = fparams[5] != 0;
         for _ in 0..reads {
@@ -663,7 +694,7 @@ fn gen_reads(files: usize, reads: usize, r: &mut Rng, emit: &mut dyn FnMut(Case)
             let np = match r.below(6) { 0 | 1 => 0, 2 | 3 => 1, 4 => 2, _ => 3 };
             let mut preds: Vec<i64> = Vec::new();
             for _ in 0..np {
-                let extra = if r.chance(1, 3) { r.below(32) as i64 } else { 0 };
+                let extra = if r.chance(1, 3) { r.below(64) as i64 } else { 0 } + 64 * r.below(2) as i64;
                 match r.below(8) {
                     0 => preds.extend([0, 1, 1, extra]),                                   // always true
                     1 | 2 => { let k = 2 + r.below(6) as i64; preds.extend([0, k, r.below(k as usize) as i64, extra]) }
@@ -679,10 +710,10 @@ fn gen_reads(files: usize, reads: usize, r: &mut Rng, emit: &mut dyn FnMut(Case)
             let offset: Vec<usize> = if r.chance(1, 3) { vec![*r.pick(&[0, 1, 2, page_rows, nrows / 2, nrows, nrows + 1, rb1, rb1, rb1, rb1, rb1])] } else { vec![] };
             let limit: Vec<usize> = if r.chance(1, 3) { vec![*r.pick(&[0, 1, 2, page_rows, nrows / 2, nrows, nrows + 5, rb2, rb2, rb2, rb2, rb2])] } else { vec![] };
             let bs = *r.pick(&[1usize, 2, 3, 7, 8, 64, 100, 1024, 8192]);
-            let proj: Vec<i64> = match r.below(8) {
-                0 => vec![1, 0, 0, 0, 0], 1 => vec![1, 1, 1, 1, 1], 2 => vec![1, 0, 0, 1, 0], 3 => vec![0, 0, 0, 1, 0],
-                4 => vec![1, 0, 0, 0, 1], 5 => vec![0, 0, 0, 0, 1],
-                _ => { let v: Vec<i64> = (0..5).map(|_| r.below(2) as i64).collect(); if v.iter().all(|x| *x == 0) { vec![0, 0, 1, 0, 0] } else { v } }
+            let proj: Vec<i64> = match r.below(11) {
+                0 => vec![1, 0, 0, 0, 0, 0], 1 => vec![1, 1, 1, 1, 1, 1], 2 => vec![1, 0, 0, 1, 0, 0], 3 => vec![0, 0, 0, 1, 0, 0],
+                4 => vec![1, 0, 0, 0, 1, 0], 5 => vec![0, 0, 0, 0, 1, 0], 6 => vec![1, 0, 0, 0, 0, 1], 7 => vec![0, 0, 0, 0, 0, 1],
+                _ => { let v: Vec<i64> = (0..6).map(|_| r.below(2) as i64).collect(); if v.iter().all(|x| *x == 0) { vec![0, 0, 1, 0, 0, 0] } else { v } }
             };
             let policy = r.below(4) as i64;
             let pidx = if no_oidx { r.below(2) as i64 } else { r.below(3) as i64 };
@@ -690,8 +721,8 @@ fn gen_reads(files: usize, reads: usize, r: &mut Rng, emit: &mut dyn FnMut(Case)
             let args: Args = vec![
                 gs(&fparams), gs(&rgs), gs(&chosen), sel, gs(&preds), gs(&offset), gs(&limit), g(bs), gs(&proj), gs(&hp),
             ];
-            let tag = format!("read rg:{rgk} {selk} p{np} o{} l{} pol{policy} pidx{pidx} oidx{} v{} proj{}",
-                offset.len(), limit.len(), !no_oidx as u8, fparams[3], proj.iter().map(|x| x.to_string()).collect::<String>());
+            let tag = format!("read rg:{rgk} {selk} p{np} o{} l{} pol{policy} pidx{pidx} oidx{} v{} e{} proj{}",
+                offset.len(), limit.len(), !no_oidx as u8, fparams[3], fparams[8], proj.iter().map(|x| x.to_string()).collect::<String>());
             emit(Case::new("c06.read", args, &["c06.read", "c06.read.spec"], tag));
         }
     }
